@@ -1424,7 +1424,7 @@ class Translator:
             c = Ctx(self, name, env, "r" if reader else None, rt, bool(reader), partial)
             if reader:
                 c.rd_alias.add(reader)
-            if reader and not partial:
+            if (reader or getattr(self, "force_partial", False)) and not partial:
                 continue
             self._partial_mode = partial
             self.pending = []
